@@ -52,7 +52,18 @@ type BrokerAPI interface {
 	NextId() uint32
 	ServeWho(id uint32, tag string)
 	DialWho(id uint32) (string, error)
+	// DialKeep dials and keeps the connection; CallKept makes one more call on it.
+	DialKeep(id uint32) (string, error)
+	CallKept(id uint32) (string, error)
 }
+
+var (
+	keptMu   sync.Mutex
+	keptRPC  = map[string]*rpc.Client{}
+	keptGRPC = map[string]*grpc.ClientConn{}
+)
+
+func keptKey(b interface{}, id uint32) string { return fmt.Sprintf("%p/%d", b, id) }
 
 // ---------------------------------------------------------------- who service (brokered connections)
 
@@ -105,6 +116,35 @@ func (m MuxAPI) DialWho(id uint32) (string, error) {
 	}
 }
 
+func (m MuxAPI) DialKeep(id uint32) (string, error) {
+	conn, err := m.B.Dial(id)
+	if err != nil {
+		return "", err
+	}
+	c := rpc.NewClient(conn)
+	keptMu.Lock()
+	keptRPC[keptKey(m.B, id)] = c
+	keptMu.Unlock()
+	return m.CallKept(id)
+}
+
+func (m MuxAPI) CallKept(id uint32) (string, error) {
+	keptMu.Lock()
+	c := keptRPC[keptKey(m.B, id)]
+	keptMu.Unlock()
+	if c == nil {
+		return "", errors.New("no kept connection")
+	}
+	var out string
+	call := c.Go("Plugin.Who", 0, &out, make(chan *rpc.Call, 1))
+	select {
+	case <-call.Done:
+		return out, call.Error
+	case <-time.After(10 * time.Second):
+		return "", errors.New("who call timed out")
+	}
+}
+
 type GRPCAPI struct{ B *plugin.GRPCBroker }
 
 func (g GRPCAPI) NextId() uint32 { return g.B.NextId() }
@@ -129,6 +169,37 @@ func (g GRPCAPI) DialWho(id uint32) (string, error) {
 		return "", err
 	}
 	return out.Value, nil
+}
+
+func whoCall(conn *grpc.ClientConn, d time.Duration) (string, error) {
+	ctx, cancel := context.WithTimeout(context.Background(), d)
+	defer cancel()
+	out := new(wrapperspb.StringValue)
+	if err := conn.Invoke(ctx, "/verif.Who/Who", wrapperspb.String(""), out); err != nil {
+		return "", err
+	}
+	return out.Value, nil
+}
+
+func (g GRPCAPI) DialKeep(id uint32) (string, error) {
+	conn, err := g.B.Dial(id)
+	if err != nil {
+		return "", err
+	}
+	keptMu.Lock()
+	keptGRPC[keptKey(g.B, id)] = conn
+	keptMu.Unlock()
+	return whoCall(conn, 12*time.Second)
+}
+
+func (g GRPCAPI) CallKept(id uint32) (string, error) {
+	keptMu.Lock()
+	conn := keptGRPC[keptKey(g.B, id)]
+	keptMu.Unlock()
+	if conn == nil {
+		return "", errors.New("no kept connection")
+	}
+	return whoCall(conn, 10*time.Second)
 }
 
 // ---------------------------------------------------------------- the implementation behind a dispensed plugin
@@ -195,6 +266,18 @@ func (im *Impl) Do(c Cmd) Res {
 		return Res{OK: true}
 	case "dial":
 		tag, err := im.Broker.DialWho(c.ID)
+		if err != nil {
+			return Res{Err: err.Error()}
+		}
+		return Res{OK: true, S: tag}
+	case "dialkeep":
+		tag, err := im.Broker.DialKeep(c.ID)
+		if err != nil {
+			return Res{Err: err.Error()}
+		}
+		return Res{OK: true, S: tag}
+	case "callkept":
+		tag, err := im.Broker.CallKept(c.ID)
 		if err != nil {
 			return Res{Err: err.Error()}
 		}
